@@ -19,6 +19,8 @@ World lines
 * `cwl_add sender=<x> who=<x>` / `cwl_rm sender=<x> who=<x>`   → `ok|err n=<#members> m=<who member>`
 * `cwl_admins sender=<x> admins=<xs>`                   → `ok|err`
 * `q_elig eth=<x>`                                      → `ok 0|1` | `err`
+* `q_imm`                                               → `ok count=<distinct listed> limit=<per-address limit>` | `err`
+* `q_minter`                                            → `ok 1` (GetMinter returns the configured minter) | `err`
 
 Function-level lines
 * `repl tpl=<x> w=<x>` → `ok <x>`; `replp pat=<x> rep=<x> s=<x>` → `ok <x>`; `contains tpl=<x>` → `ok 0|1`
@@ -145,6 +147,11 @@ def c16Line (d : DS) (line : String) : DS × String :=
       match d.st with
       | none => pure (d, "err")
       | some s => pure (d, s!"ok {b01 (airdropEligible s eth)}")
+    | some "q_imm" =>
+      match d.st with
+      | none => pure (d, "err")
+      | some s => pure (d, s!"ok count={addressCount s} limit={s.perAddressLimit}")
+    | some "q_minter" => pure (d, if d.st.isSome then "ok 1" else "err")
     -- function level
     | some "repl" => do
       let tpl ← bytesKv ws "tpl"; let w ← bytesKv ws "w"
